@@ -22,7 +22,8 @@ RULE = ("per mechanism: VHDX differencing chains of depth 1-3 on real files (blo
         "offsets {0,3,5} and across the block boundary and in the second chunk), every (sector,count) sub-range of the "
         "window +-2 via read_sectors and via byte reads; VMDK delta chains (hosted / SE-sparse children, multi-extent), "
         "Parallels snapshot chains (open() and open(guid) for every shot), QCOW2 backing chains and internal snapshots, "
-        "VDI parents, each depth 1-3 x {hole, zero, data}^W per layer x boundary requests; parent-resolution "
+        "VDI parents, each depth 1-3 x {hole, zero, data}^W per layer x boundary requests; the same for chains whose ancestors are "
+        "one unit shorter than their child (VDI, Parallels, VMDK, VHDX, QCOW2); parent-resolution "
         "configurations (relative, same dir, sibling dir, missing, nameless handle, opt-out). non-trivial = request whose "
         "expected bytes come from >= 2 different sources (layers / zero)")
 ASSUMPTIONS = [
